@@ -19,6 +19,21 @@ func main() {
 		cfgs = []cfg{{3, 2, 3}, {4, 1, 2}}
 		deadline = time.Now().Add(25 * time.Minute)
 	}
+	if run.Replay != "" {
+		var rp struct {
+			Keys, Values, Iterators int
+			Path                    []maph.Op
+		}
+		if _, _, err := run.LoadReplay(&rp); err != nil {
+			ev.Infra("replay: %v", err)
+		}
+		fmt.Println("replaying:", maph.FormatPath(rp.Path))
+		_, _, v := maph.Spec(rp.Keys, rp.Values, rp.Iterators, nil).Run(rp.Path)
+		if v != nil {
+			run.ReplayVerdict("map "+v.Sig, v.Detail)
+		}
+		run.ReplayVerdict("", "")
+	}
 	var samples ev.Samples
 	states, trans := 0, int64(0)
 	fix := true
@@ -32,7 +47,7 @@ func main() {
 		fix = fix && st.Fixpoint
 		per = append(per, map[string]any{"keys": c.keys, "values": c.vals, "iterators": c.iters, "states": st.States, "transitions": st.Transitions, "depth": st.Depth, "fixpoint": st.Fixpoint, "capped": st.Capped, "states_per_depth": st.PerDepth})
 		for _, f := range found {
-			run.Violation("map "+f.V.Sig, f.V.Detail+"\nhistory: "+maph.FormatPath(f.Path), map[string]any{"keys": c.keys, "values": c.vals, "iterators": c.iters, "ops": maph.FormatPath(f.Path)})
+			run.Violation("map "+f.V.Sig, f.V.Detail+"\nhistory: "+maph.FormatPath(f.Path), map[string]any{"keys": c.keys, "values": c.vals, "iterators": c.iters, "ops": maph.FormatPath(f.Path), "path": f.Path})
 		}
 		samples.Add(fmt.Sprintf("keys=%d values=%d iterators<=%d: states=%d transitions=%d depth=%d fixpoint=%v", c.keys, c.vals, c.iters, st.States, st.Transitions, st.Depth, st.Fixpoint))
 	}
